@@ -65,7 +65,7 @@ def C10(ctx):
     mc(ctx, "MC_UriCanon", law_cfg("BrokenQueryLaws", "query_lists", 2), expect_violation="BrokenQueryLaws",
        label="neg-rendered-sort")
     fn_campaign(ctx,
-                [("query_bytes", 0), ("query_ampamp", 2), ("query_lists", 2 if q else 3)],
+                [("query_bytes", 0), ("query_escapes", 0), ("query_ampamp", 2), ("query_lists", 2 if q else 3)],
                 [("query", 4000 if q else 200000)])
     return dict(
         rule="E: TLC enumerates every parameter list of <= %d components over 80 components (10 names incl. prefix-"
@@ -152,7 +152,7 @@ def pipeline_mc(ctx, quick):
 def C13(ctx):
     q = ctx.quick
     pipeline_mc(ctx, q)
-    req_campaign(ctx, [("defects", 2 if q else 14)])
+    req_campaign(ctx, [("defects", 2 if q else 14), ("scripts", 1 if q else 0)])
     return dict(
         rule="MC: SigV4.tla Precedence/Taxonomy over every subset of simultaneous defects (%s) x 4 carriers x provider "
              "scripts; E: one wire request per (defect subset with <= %d defects, carrier, 3 witnesses per rule), rendered "
@@ -193,7 +193,7 @@ def C01(ctx):
 def C02(ctx):
     q = ctx.quick
     pipeline_mc(ctx, q)
-    req_campaign(ctx, [("spell", 0), ("base", 0 if q else 1)])
+    req_campaign(ctx, [("spell", 0), ("base", 0 if q else 1), ("midnight", 0), ("window", 0 if q else 1)])
     return dict(
         rule="MC: Complete on SigV4.tla; the spelling law (an admissible respelling leaves canonical request, string-to-sign "
              "prefix, payload, access key and token unchanged) is checked by TLC on Request!Q for every generated case. "
@@ -235,6 +235,7 @@ def C04(ctx):
 def C05(ctx):
     q = ctx.quick
     pipeline_mc(ctx, q)
+    fn_campaign(ctx, [("vreqs", 2 if q else 3)], [])
     req_campaign(ctx, [("reqs", 0 if q else 2)])
     return dict(
         rule="E: every combination of always-required {content-type, x-req}, conditionally required {etag, x-opt} and "
@@ -303,6 +304,83 @@ def C17(ctx):
              "thorough) on both carriers, provider errors, all 68 signature mutations; Debug/Display of all key types, "
              "provider request/response and authenticator response for 8 secrets (Trace_Fn).",
         assumptions=["secrets have >= 20 bytes of entropy, so accidental substring hits are negligible"])
+
+
+def C07(ctx):
+    import concurrent.futures as cf
+    q = ctx.quick
+    mc(ctx, "CtEq", "MC_CtEq.cfg", label="NonInterference")
+    mc(ctx, "CtEq", "MC_CtEq_neg.cfg", expect_violation="NonInterference", label="neg-early-exit")
+    cases, n = tlc_gen(ctx, "Gen_Req", {"Family": "ct", "Bound": 0 if q else 1}, "ct")
+    lines = open(cases).read().splitlines()
+    groups = {}
+    for ln in lines:
+        c = json.loads(ln)
+        groups.setdefault(json.dumps(c["group"]), []).append(c)
+    d = os.path.dirname(cases)
+    jobs = []
+    # one tracer process per slice of a group; every slice starts with the group's reference position so that
+    # each process has its own baseline, and the reference digests of the slices must agree with each other too
+    nslice = 1 if q else 4
+    for g, cs in groups.items():
+        ref = [c for c in cs if c["who"] == "ref"]
+        rest = [c for c in cs if c["who"] != "ref"]
+        for k in range(nslice):
+            part = rest[k::nslice]
+            if not part:
+                continue
+            cp = os.path.join(d, "ct-%d-%d.ndjson" % (len(jobs), k))
+            with open(cp, "w") as f:
+                for c in ref + part:
+                    f.write(json.dumps(c) + "\n")
+            jobs.append((cp, cp + ".out"))
+
+    def run(job):
+        return sh([CONFORM, "ctrace", job[0], job[1]], timeout=3000, env={"RUST_BACKTRACE": "0"})
+    t0 = time.time()
+    with cf.ThreadPoolExecutor(max_workers=min(len(jobs), max(2, NCPU - 4))) as ex:
+        outs = list(ex.map(run, jobs))
+    obs = []
+    for (rc, o), job in zip(outs, jobs):
+        if rc != 0:
+            raise ToolError("ptrace tracer failed: " + o[-400:])
+        first = True
+        for ln in open(job[1]):
+            e = json.loads(ln)
+            if e["who"] == "ref" and not first:
+                continue
+            first = False
+            obs.append(e)
+    # keep one "ref" per group as the reference, turn the other slices' refs into ordinary observations
+    seen = set()
+    for e in obs:
+        k = json.dumps(e["id"])
+        if e["who"] == "ref":
+            if k in seen:
+                e["who"] = "ref-again"
+            seen.add(k)
+    obs.sort(key=lambda e: (json.dumps(e["id"]), 0 if e["who"] == "ref" else 1))
+    dt = os.path.join(d, "ct.ndjson")
+    with open(dt, "w") as w:
+        for e in obs:
+            w.write(json.dumps(e) + "\n")
+    log("  ptrace %d traces in %d tracer processes  %.1fs  (in-image steps per validation: %s)" %
+        (len(obs), len(jobs), time.time() - t0, sorted({e["steps"] for e in obs})[:4]))
+    validate(ctx, "Trace_Det", dt, "instruction-traces", group="key", chunk=20000,
+             distinct_key=lambda ln: (json.loads(ln)["who"], json.dumps(json.loads(ln)["id"])))
+    ctx.exhaustive = not q
+    return dict(
+        rule="MC: CtEq.tla self-composition - the constant-time comparator satisfies NonInterference (equal program-point "
+             "traces for any two wrong guesses of the right length), the early-exit one violates it (negative control). "
+             "Implementation: for each (request, key) group TLC generates a validly signed request and the same request "
+             "with the signature's hex digit at position p replaced by another digit of the same class, p in %s; a forked "
+             "child builds the request, stops, and is single-stepped under ptrace through sigv4_validate_request only; "
+             "instruction addresses inside the harness executable's text mapping are counted and hashed (FNV-1a). The "
+             "binary supplies byte-wise early-exit memcmp/bcmp. Trace_Det requires every position's (count, digest) to "
+             "equal the reference position's; position 0 is traced twice as a control."
+             % ("{0,1,2,15,31,32,47,62,63}" if q else "0..63, 3 requests x 2 keys"),
+        assumptions=["in-image instruction stream only (vdso/libc/ld.so excluded); says nothing about micro-architectural timing",
+                     "a position whose trace differs from the reference is re-traced; only a difference that reproduces is reported"])
 
 
 def C08(ctx):
@@ -417,4 +495,4 @@ def C19(ctx):
         assumptions=[])
 
 
-PROPS = {"C01": C01, "C02": C02, "C03": C03, "C04": C04, "C05": C05, "C08": C08, "C11": C11, "C12": C12, "C15": C15, "C17": C17, "C18": C18, "C19": C19, "C06": C06, "C09": C09, "C10": C10, "C13": C13, "C14": C14, "C16": C16}
+PROPS = {"C01": C01, "C02": C02, "C03": C03, "C04": C04, "C05": C05, "C07": C07, "C08": C08, "C11": C11, "C12": C12, "C15": C15, "C17": C17, "C18": C18, "C19": C19, "C06": C06, "C09": C09, "C10": C10, "C13": C13, "C14": C14, "C16": C16}
